@@ -145,11 +145,14 @@ theorem fupWith_no_panic (s : Segment α H) (size : Nat) (bm : Option (Nat → B
 
 theorem firstUnprunedParent_no_panic (hf : HashFn α H) (s : Segment α H) (size : Nat)
     (bm : Option (Nat → Bool)) : s.firstUnprunedParent hf size bm ≠ .panic := by
-  unfold Segment.firstUnprunedParent Segment.root
-  refine fupWith_no_panic s size bm _ _ (rootWith_no_panic hf s bm size _ _ _) ?_
-  intro hb
-  subst hb
-  exact rootWith_none_some hf s size _ _ _
+  unfold Segment.firstUnprunedParent
+  by_cases hz : s.id.unprunedSize size = 0
+  · rw [root_of_empty hf s size bm hz]; simp [fupWith]
+  · rw [root_of_nonempty hf s size bm hz]
+    refine fupWith_no_panic s size bm _ _ (rootWith_no_panic hf s bm size _ _ _) ?_
+    intro hb
+    subst hb
+    exact rootWith_none_some hf s size _ _ _
 
 theorem climb_no_panic (hf : HashFn α H) : ∀ (br : List (Nat × Nat)) (root : H) (it : List H),
     climb hf root it br ≠ .panic := by
